@@ -1106,6 +1106,24 @@ Definition compile_events (gvt : bool) (t : task) (certain : bool) : list ev :=
       e1 ++ e2
   end.
 
+(* the command loop of RunTask under --dry; [callee name vars_hold_time] = what running that task can do *)
+Fixpoint run_cmds (callee : string -> bool -> list ev) (l : list (option cmd)) (c : bool) : list ev :=
+  match l with
+  | [] => []
+  | None :: r => run_cmds callee r c
+  | Some x :: r =>
+      if c_defer x then
+        (if is_empty (c_task x) then ev_of (should_run (c_platforms x)) false else callee (c_task x) (c_vars_time x))
+        ++ run_cmds callee r c
+      else if negb (is_empty (c_task x)) then callee (c_task x) false ++ run_cmds callee r false
+      else if negb (is_empty (c_cmd x)) then
+        match should_run (c_platforms x) with
+        | Panic s => [(s, c)]
+        | _ => run_cmds callee r c
+        end
+      else run_cmds callee r c
+  end.
+
 (* Executor.RunTask under --dry *)
 Fixpoint run_events (fuel : nat) (tbl : list task) (t : task) (certain : bool) : list ev :=
   match fuel with
@@ -1128,23 +1146,7 @@ Fixpoint run_events (fuel : nat) (tbl : list task) (t : task) (certain : bool) :
               let dep_evs := flat_map (fun d => match d with Some d => callee (dp_task d) false | None => [] end) (t_deps t) in
               let c2 := c1 && is_nil (t_deps t) && Nat.eqb (t_preconds t) 0 && negb (t_status t)
                         && is_nil (t_sources t) && is_nil (t_generates t) in
-              let fix cmds (l : list (option cmd)) (c : bool) : list ev :=
-                match l with
-                | [] => []
-                | None :: r => cmds r c
-                | Some x :: r =>
-                    if c_defer x then
-                      (if is_empty (c_task x) then ev_of (should_run (c_platforms x)) false else callee (c_task x) (c_vars_time x))
-                      ++ cmds r c
-                    else if negb (is_empty (c_task x)) then callee (c_task x) false ++ cmds r false
-                    else if negb (is_empty (c_cmd x)) then
-                      match should_run (c_platforms x) with
-                      | Panic s => [(s, c)]
-                      | _ => cmds r c
-                      end
-                    else cmds r c
-                end in
-              dep_evs ++ cmds (t_cmds t) c2
+              dep_evs ++ run_cmds callee (t_cmds t) c2
           end
       end
   end.
